@@ -54,7 +54,7 @@ THEOREMS["C08"] = [("Flurry.Props.C01TableN", ["Flurry.Proto.TableN.tableN_map_l
     "Flurry.C08.counter_no_lost_update", "Flurry.C08.absent_not_applied", "Flurry.C08.replaces_what_it_read",
     "Flurry.C08.removal_is_atomic"])]
 
-THEOREMS["C10"] = THEOREMS["C10"] + [("Flurry.Props.C01TableN", ["Flurry.Proto.TableN.tableN_map_linearizable", "Flurry.Proto.TableN.tableN_generations_do_not_overlap", "Flurry.Proto.TableN.tableN_old_generations_forwarded", "Flurry.Proto.TableN.bin_index_eq"]), ("Flurry.Props.C01BinN", ["Flurry.Proto.BinN." + n for n in "generations_do_not_overlap old_generations_forwarded next_generation_not_forwarded commit_only_when_all_forwarded transfer_abs_invariant follow_markers_until_live binN_linearizable_quiescent".split()]), ("Flurry.Props.C05BinG", ["Flurry.Proto.BinG.quiescent_no_half_resize", "Flurry.Proto.BinG.resize_committed_or_at_work"]), ("Flurry.Props.C01TableG", ["Flurry.Proto.TableG.tableG_map_linearizable", "Flurry.Proto.TableG.tableG_lineage_reachable"]), ("Flurry.Props.C01BinG", ["Flurry.Proto.BinG.transfer_abs_invariant", "Flurry.Proto.BinG.binG_inv"]), ("Flurry.Props.C10", ["Flurry.C10." + n for n in "helper_accounting bin_migrated_at_most_once all_bins_migrated_at_publication one_finisher one_publication_per_generation generations_do_not_overlap initiation_only_from_idle quiescent_after_resize resize_completes no_stale_join joiner_holds_current_generation join_admits_current_generation help_refusal_matches_model fill_then_forward_then_retire add_count_access_order help_transfer_access_order".split()])]
+THEOREMS["C10"] = THEOREMS["C10"] + [("Flurry.Props.C01BinNH", ["Flurry.Proto.BinNH." + n for n in "cell_migrated_at_most_once generations_do_not_overlap old_generations_forwarded commit_only_when_all_forwarded stale_helper_is_harmless alloc_commit_abs_invariant cells_step reachable_invariant rw_generation_invariant two_helpers_run stale_helper_run noCheck_refuted".split()]), ("Flurry.Props.C01TableN", ["Flurry.Proto.TableN.tableN_map_linearizable", "Flurry.Proto.TableN.tableN_generations_do_not_overlap", "Flurry.Proto.TableN.tableN_old_generations_forwarded", "Flurry.Proto.TableN.bin_index_eq"]), ("Flurry.Props.C01BinN", ["Flurry.Proto.BinN." + n for n in "generations_do_not_overlap old_generations_forwarded next_generation_not_forwarded commit_only_when_all_forwarded transfer_abs_invariant follow_markers_until_live binN_linearizable_quiescent".split()]), ("Flurry.Props.C05BinG", ["Flurry.Proto.BinG.quiescent_no_half_resize", "Flurry.Proto.BinG.resize_committed_or_at_work"]), ("Flurry.Props.C01TableG", ["Flurry.Proto.TableG.tableG_map_linearizable", "Flurry.Proto.TableG.tableG_lineage_reachable"]), ("Flurry.Props.C01BinG", ["Flurry.Proto.BinG.transfer_abs_invariant", "Flurry.Proto.BinG.binG_inv"]), ("Flurry.Props.C10", ["Flurry.C10." + n for n in "helper_accounting bin_migrated_at_most_once all_bins_migrated_at_publication one_finisher one_publication_per_generation generations_do_not_overlap initiation_only_from_idle quiescent_after_resize resize_completes no_stale_join joiner_holds_current_generation join_admits_current_generation help_refusal_matches_model fill_then_forward_then_retire add_count_access_order help_transfer_access_order".split()])]
 
 
 THEOREMS["C15"] = [("Flurry.Props.C15", ["Flurry.C15." + n for n in "handover_hb path_hb relaxed_writes_private publication_points_release reader_loads_acquire read_lock_rmw_acqrel control_words_synchronise sites_present".split()])]
